@@ -1,4 +1,5 @@
 """C02 — emu-mps TDVP runs reproduce the Pulser Hamiltonian dynamics (DESIGN.md §4 C02)."""
+import json
 import logging
 import warnings
 
@@ -230,6 +231,164 @@ def e2e_stage(ctx, n_cases):
     ctx.extra["e2e_worst_occupation_error"] = worst
 
 
+# ---- environment ("bath") kernels: exact tie of Model/Bath.v + implementation-level oracle ------------------------
+BATH_HEADER = """From Coq Require Import ZArith List Bool.
+Import ListNotations.
+From EV Require Import Model.TransferMat Model.MPSAlg Model.Bath.
+Open Scope Z_scope."""
+
+
+def _gi_tensor(rng, shape, lo=-3, hi=3, density=1.0):
+    import torch
+
+    t = torch.zeros(shape, dtype=torch.complex128)
+    flat = t.view(-1)
+    for k in range(flat.numel()):
+        if rng.random() < density:
+            flat[k] = complex(rng.randint(lo, hi), rng.randint(lo, hi))
+    return t
+
+
+def _gi(z):
+    z = complex(z)
+    return f"({int(round(z.real))},{int(round(z.imag))})"
+
+
+def _raw3(t):
+    if t.ndim == 4:
+        t = t.reshape(t.shape[0], t.shape[1] * t.shape[2], t.shape[3])
+    l, p_, r = t.shape
+    data = "[" + ";".join("[" + ";".join("[" + ";".join(_gi(x) for x in row) + "]" for row in mat) + "]"
+                          for mat in t.tolist()) + "]"
+    return f"(of_raw (({l}%nat,{p_}%nat,{r}%nat),{data}))", data
+
+
+def _einsum_right(R, A, W):
+    import torch
+    return torch.einsum("aix,bijy,cjz,xyz->abc", A.conj(), W, A, R)
+
+
+def _einsum_left(L, A, W):
+    import torch
+    return torch.einsum("abc,aix,bijy,cjz->xyz", L, A.conj(), W, A)
+
+
+def bath_stage(ctx, n_cases):
+    """(1) new_left_bath / new_right_bath / right_baths on Gaussian-integer tensors (complex, NON-symmetric operator
+    factors) == vm_compute of Model/Bath.v, entry by entry (float64 is exact on this data); (2) implementation-level
+    oracle on the same inputs: the kernels equal the einsum definition, the environment contraction is the same at
+    every cut and equals <psi|H|psi> of the dense contraction, EffectiveHamiltonian applies the projected operator."""
+    import torch
+    from vlib.coqparse import parse
+    import emu_mps.utils as U
+    import emu_mps.solver_utils as SU
+    from emu_mps import MPS, MPO
+
+    rng = ctx.rng
+    ev = common.CoqEval("C02bath", BATH_HEADER)
+    items = []
+    for ci in range(n_cases):
+        d = rng.choice([2, 2, 3])
+        n = rng.randint(2, 4)
+        sb = [1] + [rng.randint(1, 3) for _ in range(n - 1)] + [1]
+        ob = [1] + [rng.randint(1, 3) for _ in range(n - 1)] + [1]
+        As = [_gi_tensor(rng, (sb[k], d, sb[k + 1]), -2, 2) for k in range(n)]
+        Ws = [_gi_tensor(rng, (ob[k], d, d, ob[k + 1]), -2, 2, density=rng.choice([1.0, 0.6])) for k in range(n)]
+        k = rng.randrange(n)
+        A, W = As[k], Ws[k]
+        L = _gi_tensor(rng, (sb[k], ob[k], sb[k]), -2, 2)
+        R = _gi_tensor(rng, (sb[k + 1], ob[k + 1], sb[k + 1]), -2, 2)
+        case = {"kind": "bath", "d": d, "n": n, "site": k, "state_bonds": sb, "op_bonds": ob,
+                "A": [[[[x.real, x.imag] for x in r] for r in m] for m in A.tolist()],
+                "W": [[[[[x.real, x.imag] for x in r] for r in m] for m in o] for o in W.tolist()],
+                "L": [[[[x.real, x.imag] for x in r] for r in m] for m in L.tolist()],
+                "R": [[[[x.real, x.imag] for x in r] for r in m] for m in R.tolist()]}
+        a_expr, _ = _raw3(A)
+        w_expr, _ = _raw3(W)
+        _, l_data = _raw3(L)
+        _, r_data = _raw3(R)
+        # real code
+        got_r = SU.new_right_bath(R.clone(), A.clone(), W.clone())
+        got_l = U.new_left_bath(L.clone(), A.clone(), W.clone())
+        ev.add(f"bath_list (dl {a_expr}, dl {w_expr}, dl {a_expr}) "
+               f"(right_step gi_ops {d}%nat {a_expr} {w_expr} (bath_of_list gi_ops {r_data}))")
+        ev.add(f"bath_list (dr {a_expr}, dr {w_expr}, dr {a_expr}) "
+               f"(left_step gi_ops {d}%nat {a_expr} {w_expr} (bath_of_list gi_ops {l_data}))")
+        # whole chain through right_baths + left sweep, contraction at every cut
+        state = MPS([a.clone() for a in As], eigenstates=("r", "g") if d == 2 else ("r", "g", "x"),
+                    orthogonality_center=0)
+        op = MPO([w.clone() for w in Ws])
+        rb = SU.right_baths(state, op, final_qubit=0)  # rb[j] = bath of the last j sites
+        lb = [torch.ones(1, 1, 1, dtype=torch.complex128)]
+        for q in range(n):
+            lb.append(U.new_left_bath(lb[-1], As[q], Ws[q]))
+        cuts = [complex(torch.tensordot(lb[q], rb[n - q], 3)) for q in range(n + 1)]
+        chain_a = "[" + ";".join(_raw3(a)[0] for a in As) + "]"
+        chain_w = "[" + ";".join(_raw3(w)[0] for w in Ws) + "]"
+        ev.add(f"pair3 gi_ops (1,1,1)%nat (ones3 gi_ops) (rbath_m gi_ops {d}%nat {chain_a} {chain_w} (ones3 gi_ops))")
+        items.append((case, got_r, got_l, cuts, (R, A, W, L), (As, Ws, d)))
+    ok, detail = True, ""
+    try:
+        outs = ev.run(shard=30, jobs=8)
+    except common.CoqEvalError as ex:
+        outs, ok, detail = None, False, str(ex)
+
+    def tolist(t):
+        return [[[(int(round(x.real)), int(round(x.imag))) for x in r] for r in m] for m in t.tolist()]
+
+    for idx, (case, got_r, got_l, cuts, (R, A, W, L), (As, Ws, d)) in enumerate(items):
+        ctx.count_case({k: case[k] for k in ("kind", "d", "n", "site", "state_bonds", "op_bonds")}, nontrivial=True)
+        if outs is not None:
+            mr, ml, me = parse(outs[3 * idx]), parse(outs[3 * idx + 1]), parse(outs[3 * idx + 2])
+            norm = lambda v: json.loads(json.dumps(v))  # noqa: E731
+            if ok and (norm(mr) != norm(tolist(got_r)) or norm(ml) != norm(tolist(got_l))
+                       or norm(me) != norm((int(round(cuts[0].real)), int(round(cuts[0].imag))))):
+                ok = False
+                detail = (f"case={ {k: case[k] for k in ('d', 'n', 'site', 'state_bonds', 'op_bonds')} } "
+                          f"model_right={str(mr)[:200]} real_right={str(tolist(got_r))[:200]} "
+                          f"model_left={str(ml)[:200]} real_left={str(tolist(got_l))[:200]} model_E={me} real_E={cuts[0]}")
+        # implementation-level oracle (independent of the Coq model)
+        bad = None
+        if not torch.equal(got_r, _einsum_right(R, A, W)):
+            bad = "new_right_bath differs from sum conj(A) W A R (operator factor used transposed / wrong legs?)"
+        elif not torch.equal(got_l, _einsum_left(L, A, W)):
+            bad = "new_left_bath differs from sum L conj(A) W A"
+        elif any(c != cuts[0] for c in cuts):
+            bad = f"contraction of left and right environments depends on the cut: {cuts}"
+        else:
+            # dense <psi|H|psi>
+            psi = As[0]
+            for a in As[1:]:
+                psi = torch.tensordot(psi, a, 1)
+            psi = psi.reshape(-1)
+            Hd = Ws[0]
+            for w in Ws[1:]:
+                Hd = torch.tensordot(Hd, w, 1)
+            n = len(As)
+            perm = [0] + [1 + 2 * q for q in range(n)] + [2 + 2 * q for q in range(n)] + [2 * n + 1]
+            Hd = Hd.permute(perm).reshape(d ** n, d ** n)
+            e = complex(psi.conj() @ (Hd @ psi))
+            if e != cuts[0]:
+                bad = f"environment contraction {cuts[0]} differs from dense <psi|H|psi> = {e}"
+        if bad is None and len(As) >= 2:
+            # EffectiveHamiltonian on the pair (0,1) with the real right bath: equals the projected dense operator
+            n = len(As)
+            rbath = SU.right_baths(MPS([a.clone() for a in As], eigenstates=("r", "g") if d == 2 else ("r", "g", "x"),
+                                       orthogonality_center=0), MPO([w.clone() for w in Ws]), final_qubit=2)[-1]
+            lbath = torch.ones(1, 1, 1, dtype=torch.complex128)
+            st, _dev, opf = SU.make_op(1.0, [As[0].clone(), As[1].clone()], (lbath, rbath), [Ws[0], Ws[1]], dim=d)
+            got = opf(st)
+            W2 = torch.tensordot(Ws[0], Ws[1], 1)  # (l,o1,i1,o2,i2,r)
+            x = torch.tensordot(As[0], As[1], 1)   # (l,s1,s2,r)
+            want = torch.einsum("abc,bpiqjy,cijz,xyz->apqx", lbath, W2, x, rbath).reshape(got.shape)
+            if not torch.equal(got, want):
+                bad = "EffectiveHamiltonian(make_op) differs from L W W x R contracted by definition"
+        if bad:
+            ctx.violation("emu-mps environment kernels: " + bad, {"case": case, "finding_key": "bath-kernel-wrong"})
+    ctx.obligation("correspondence:Model.Bath(Z[i])==new_left_bath/new_right_bath/right_baths (exact, entrywise)",
+                   ok, detail, kind="correspondence")
+
+
 def _ser(case):
     p = case["prob"]
     out = {"reorder": case["reorder"], "prob": {k: (v.tolist() if hasattr(v, "tolist") else v) for k, v in p.items()}}
@@ -262,12 +421,16 @@ def run(ctx):
     common.coq_make(["Model/MpsMachine.vo"])
     common.standard_proof_stage(ctx, "C02", ["Properties/C02.vo"])
     trace_stage(ctx, "TDVP", ctx.n(60, 1200), "C02trace")
+    bath_stage(ctx, ctx.n(40, 400))
     e2e_stage(ctx, ctx.n(10, 150))
     ctx.rule = ("(a) scripted stepping cases N in 2..9, 1-5 steps, int/fractional/irregular times, malformed "
                 "(short target_times, extra rows): real MPSBackendImpl with stubbed kernels vs vm_compute of the "
                 "Gallina machine, every event and the attribute tuple after every progress(); non-trivial = >= 10 "
                 "events. (b) end-to-end runs (Rydberg/XY, local/global drives, reordering on/off) vs an independent "
-                "dense expm reference of the per-step Hamiltonian.")
+                "dense expm reference of the per-step Hamiltonian. (c) environment kernels: random Gaussian-integer state/operator "
+                "factors (complex, non-symmetric operator factors, d = 2/3, bonds 1-3, chains of 2-4 sites): new_left_bath, "
+                "new_right_bath, right_baths vs vm_compute of Model/Bath.v entry by entry, plus the definitional einsum, "
+                "cut-independence, dense <psi|H|psi> and EffectiveHamiltonian oracles on the real code.")
     ctx.trusted_base += ["hand-written Model/MpsMachine.v, tied by the trace correspondence",
                          "dense reference tools/props/_dense_ref.py (scipy expm)"]
     ctx.assumptions += ["numerical kernels (evolve_pair/evolve_single Krylov + truncation) are NOT proved accurate: "
@@ -278,8 +441,21 @@ def run(ctx):
 
 
 def replay(ctx, path):
-    import json
     rp = json.load(open(path))
+    if rp.get("case", {}).get("kind") == "bath":
+        import torch
+        import emu_mps.utils as U
+        import emu_mps.solver_utils as SU
+        c = rp["case"]
+        mk = lambda v: torch.view_as_complex(torch.tensor(v, dtype=torch.float64).contiguous())  # noqa: E731
+        A, W, L, R = mk(c["A"]), mk(c["W"]), mk(c["L"]), mk(c["R"])
+        gr, gl = SU.new_right_bath(R.clone(), A.clone(), W.clone()), U.new_left_bath(L.clone(), A.clone(), W.clone())
+        okr, okl = torch.equal(gr, _einsum_right(R, A, W)), torch.equal(gl, _einsum_left(L, A, W))
+        print("replay: new_right_bath == definition:", okr, " new_left_bath == definition:", okl)
+        if not (okr and okl):
+            ctx.violation("replayed: environment kernel differs from its definition",
+                          {"case": c, "finding_key": rp.get("finding_key")})
+        return
     if "case" in rp and "prob" in rp["case"]:
         case = _deser(rp["case"])
         errs, order = run_e2e(case)
@@ -300,7 +476,11 @@ META = {
              "(symmetric second-order splitting) and, over any monoid of propagators whose local kernels satisfy K(-t)K(t)=1 "
              "(a premise: exact for exponentials, an idealisation for projected/truncated kernels), the step taken "
              "backwards in time undoes the step (self-adjoint one-step method); the fuelled loop `while not finished: "
-             "progress()` of MPSBackend._run (source shape pinned) terminates with that trace. The machine model is tied to mps_backend_impl.py by an exact "
+             "progress()` of MPSBackend._run (source shape pinned) terminates with that trace. Environment tensors: over every "
+             "commutative ring with involution the left and right bath updates are adjoint under the contraction over a cut, hence the "
+             "contraction of left and right environments is the same at every cut of every chain (all lengths, bond and physical "
+             "dimensions) - the bath model is tied exactly (Gaussian-integer tensors) to new_left_bath/new_right_bath/right_baths. "
+             "The machine model is tied to mps_backend_impl.py by an exact "
              "event-and-attribute trace correspondence with all kernels stubbed. Accuracy of the numerical kernels is "
              "NOT proved; it is validated end to end against an independent dense expm reference."),
     "note": ("Trusted: Coq kernel+VM; the hand-written machine model (validated by the trace correspondence on every "
